@@ -32,6 +32,18 @@ CLAIMED = {
          "growth/shrink pairing of container fields over the call graph (traffic-path reachability), dead-guard detection by whole-program store search, bind/unbind pairing",
          "Decides that every long-lived container that grows with traffic has a reachable, live shrink on a traffic path or is of a bounded kind, and that per-stream state is removed on unbind. Necessary condition only (a shrink that is not called often enough is not detected).",
          "owner lifetime is approximated by 'some struct field holds the owner type'; third-party containers are out of scope"),
+ "C15": ("DESIGN.md §3 I, §4 C15",
+         "SSA def-use and path-count rules on the TWCC header-extension closure (atomic fetch-and-add provenance, at most one allocation per path) plus atomic-only field rule and closure rules A0/A1/A3",
+         "Decides the structural clauses from which gap-free unique numbering follows for every interleaving: one atomic Add(…,1) per packet whose result (not a second load) is written, then exactly one forward. Not decided: numbers consumed when SetExtension fails.",
+         "sync/atomic semantics; uint32→uint16 truncation of consecutive integers is consecutive mod 2^16 (argued in DESIGN §4)"),
+ "C18": ("DESIGN.md §3 L",
+         "dominator-based state-gate and success-branch rules on JitterBuffer.Pop*, reset-completeness rule on Clear methods",
+         "Decides L1-L3: pops are refused before playback, a failed pop does not move the head, Clear really forgets buffered packets. Necessary conditions; list ordering for arbitrary push orders is a value property and is not decided.",
+         "table of gated methods / root fields is frozen per type"),
+ "C20": ("DESIGN.md §3 J",
+         "abstract interpretation of Unwrap's SSA in the congruence domain ℤ/2^16 (affine forms over input and previous result)",
+         "Proves, for all inputs and prior states, that Unwrap's result and stored state are congruent to the input modulo 2^16 (one clause of the property). Proximity, non-negativity and all NTP clauses are not decided; claimed at level 'other' for that reason.",
+         "integer conversions between ≥16-bit types preserve the residue class; the state field is only written by Unwrap"),
 }
 
 NA = {
